@@ -207,7 +207,10 @@ impl BlobStore for PlainBlobStore {
 
     fn put(&mut self, data: &[u8]) -> Result<RecordId> {
         let id = self.next_record_id();
-        let path = self.file_path(id);
+        let final_path = self.file_path(id);
+        // Write under a temporary name (ignored by the directory scan) and rename once complete,
+        // so an interrupted put never leaves a partial record visible
+        let path = self.base_dir.join(format!("{}.tmp", id));
 
         let mut file = File::create(&path).map_err(|e| {
             ZiporaError::io_error(format!("Failed to create blob file {:?}: {}", path, e))
@@ -219,6 +222,11 @@ impl BlobStore for PlainBlobStore {
 
         file.sync_all().map_err(|e| {
             ZiporaError::io_error(format!("Failed to sync blob file {:?}: {}", path, e))
+        })?;
+        drop(file);
+
+        fs::rename(&path, &final_path).map_err(|e| {
+            ZiporaError::io_error(format!("Failed to publish blob file {:?}: {}", final_path, e))
         })?;
 
         self.stats.record_put(data.len());
